@@ -103,6 +103,64 @@ func intrinsic(name string, fn *ssa.Function, args []value, free []value) (value
 			}
 			return strings.ToLower(a.(string))
 		}), true
+	case "strings.TrimSpace", "strings.TrimRight", "strings.TrimLeft", "strings.Trim":
+		if !isSym(args[0]) {
+			break
+		}
+		cut := " \t\n\v\f\r"
+		if name != "strings.TrimSpace" {
+			c, ok := concretize(args[1]).(string)
+			if !ok {
+				panic(unsupported{"Trim with a symbolic cutset"})
+			}
+			cut = c
+		}
+		for i := 0; i < len(cut); i++ {
+			if cut[i] >= 0x80 {
+				panic(unsupported{"Trim with a non-ASCII cutset"})
+			}
+		}
+		inCut := func(b value) value {
+			if c, ok := b.(int64); ok {
+				return strings.IndexByte(cut, byte(c)) >= 0
+			}
+			t := b.(*term)
+			var ds []*term
+			for i := 0; i < len(cut); i++ {
+				ds = append(ds, mkEq(t, bvConst(int64(cut[i]), 8)))
+			}
+			if name == "strings.TrimSpace" {
+				// U+0085 and U+00A0 are multi-byte in UTF-8; a lone byte >= 0x80 is never space
+				_ = t
+			}
+			return boolVal(mkOr(ds...))
+		}
+		return liftU(args[0], func(sv value) value {
+			b := toBytes(sv)
+			if name == "strings.TrimSpace" {
+				for _, e := range b {
+					if t, ok := e.(*term); ok && !t.isConst() && !iteConsts(t) {
+						// non-ASCII white space (U+0085, U+00A0, U+2000..) needs multi-byte
+						// sequences: require ASCII on symbolic bytes, else inconclusive
+						if !impliedByPC(isASCIITerm(t)) && !branch(boolVal(isASCIITerm(t))) {
+							panic(unsupported{"TrimSpace on a possibly non-ASCII symbolic byte"})
+						}
+					}
+				}
+			}
+			lo, hi := 0, len(b)
+			if name != "strings.TrimRight" {
+				for lo < hi && branch(inCut(b[lo])) {
+					lo++
+				}
+			}
+			if name != "strings.TrimLeft" {
+				for hi > lo && branch(inCut(b[hi-1])) {
+					hi--
+				}
+			}
+			return fromBytes(b[lo:hi])
+		}), true
 	case "regexp.Compile", "regexp.MustCompile":
 		p, ok := concretize(args[0]).(string)
 		if !ok {
@@ -191,6 +249,142 @@ func intrinsic(name string, fn *ssa.Function, args []value, free []value) (value
 			}
 		}
 		return nil, true
+	case "(*sync.Mutex).Lock", "(*sync.Mutex).Unlock", "(*sync.RWMutex).Lock", "(*sync.RWMutex).Unlock", "(*sync.RWMutex).RLock", "(*sync.RWMutex).RUnlock":
+		// sequential semantics: the engine explores one call at a time; the use of a lock is
+		// recorded so that purity checks confirm the concurrent behaviour natively
+		syncUses[name] = true
+		return nil, true
+	case "(*sync.Mutex).TryLock", "(*sync.RWMutex).TryLock":
+		syncUses[name] = true
+		return true, true
+	case "(*sync.Once).Do":
+		syncUses[name] = true
+		key, _ := args[0].(*value)
+		if key == nil {
+			panic(rtp("nil pointer dereference"))
+		}
+		if !onceDone[key] {
+			onceDone[key] = true
+			if cl, ok := args[1].(*closure); ok && cl != nil {
+				call(cl.fn, nil, cl.env)
+			}
+		}
+		return nil, true
+	case "(*sync.Map).Load", "(*sync.Map).Store", "(*sync.Map).LoadOrStore", "(*sync.Map).Delete", "(*sync.Map).LoadAndDelete":
+		syncUses[name] = true
+		key, _ := args[0].(*value)
+		if key == nil {
+			panic(rtp("nil pointer dereference"))
+		}
+		m := syncMaps[key]
+		if m == nil {
+			m = &mapVal{}
+			syncMaps[key] = m
+		}
+		find := func(k value) int {
+			kv := k.(iface).v
+			if t, ok := kv.(*tab); ok {
+				kv = concretize(t)
+			}
+			if u, ok := kv.(*union); ok {
+				kv = splitUnion(u)
+			}
+			for i, kk := range m.keys {
+				if keyEq(kk, kv) {
+					return i
+				}
+			}
+			return -1
+		}
+		keyOf := func(k value) value {
+			kv := k.(iface).v
+			if t, ok := kv.(*tab); ok {
+				kv = concretize(t)
+			}
+			if u, ok := kv.(*union); ok {
+				kv = splitUnion(u)
+			}
+			return kv
+		}
+		short := name[strings.LastIndex(name, ".")+1:]
+		if !inInit && short != "Load" {
+			globalWrites["sync.Map"] = true
+			if rs.noCheck > 0 {
+				panic(engineError{"sync.Map write inside a merged (assumed pure) call"})
+			}
+		}
+		switch short {
+		case "Load":
+			if i := find(args[1]); i >= 0 {
+				return tuple{m.vals[i], true}, true
+			}
+			return tuple{iface{}, false}, true
+		case "Store":
+			if i := find(args[1]); i >= 0 {
+				m.vals[i] = args[2]
+			} else {
+				m.keys = append(m.keys, keyOf(args[1]))
+				m.vals = append(m.vals, args[2])
+			}
+			return nil, true
+		case "LoadOrStore":
+			if i := find(args[1]); i >= 0 {
+				return tuple{m.vals[i], true}, true
+			}
+			m.keys = append(m.keys, keyOf(args[1]))
+			m.vals = append(m.vals, args[2])
+			return tuple{args[2], false}, true
+		case "Delete", "LoadAndDelete":
+			i := find(args[1])
+			var old value = iface{}
+			if i >= 0 {
+				old = m.vals[i]
+				m.keys = append(m.keys[:i:i], m.keys[i+1:]...)
+				m.vals = append(m.vals[:i:i], m.vals[i+1:]...)
+			}
+			if short == "Delete" {
+				return nil, true
+			}
+			return tuple{old, i >= 0}, true
+		}
+	case "os.Open":
+		name, _ := concretize(args[0]).(string)
+		if _, ok := jsonStubs[name]; !ok {
+			panic(unsupported{"os.Open of a file without a stub: " + name})
+		}
+		var f value = stubFile{name}
+		return tuple{&f, iface{}}, true
+	case "(*os.File).Close":
+		return iface{}, true
+	case "encoding/json.NewDecoder":
+		rd, _ := args[0].(iface)
+		fp, _ := rd.v.(*value)
+		if fp == nil {
+			panic(unsupported{"json.NewDecoder on an unmodelled reader"})
+		}
+		sf, ok := (*fp).(stubFile)
+		if !ok {
+			panic(unsupported{"json.NewDecoder on an unmodelled reader"})
+		}
+		var d value = sf
+		return &d, true
+	case "(*encoding/json.Decoder).Decode":
+		dp, _ := args[0].(*value)
+		if dp == nil {
+			panic(rtp("nil pointer dereference"))
+		}
+		sf := (*dp).(stubFile)
+		return jsonDecodeStub(jsonStubs[sf.name], args[1].(iface)), true
+	case "os.WriteFile":
+		name, _ := concretize(args[0]).(string)
+		data, ok := args[1].(sliceVal)
+		if !ok {
+			panic(unsupported{"os.WriteFile data"})
+		}
+		writtenFiles = append(writtenFiles, writtenFile{name, fromBytes(append([]value(nil), data.s...))})
+		return iface{}, true
+	case "os.Exit":
+		panic(rtp("os.Exit"))
 	case "sort.Strings":
 		sl := args[0].(sliceVal)
 		ss := make([]string, len(sl.s))
@@ -214,6 +408,121 @@ func intrinsic(name string, fn *ssa.Function, args []value, free []value) (value
 	}
 	return nil, false
 }
+
+type stubFile struct{ name string }
+type jsonStub struct {
+	listKey, idKey string
+	ids, dep, osi  []value
+}
+type writtenFile struct {
+	name string
+	data value
+}
+
+var jsonStubs = map[string]*jsonStub{}
+var writtenFiles []writtenFile
+
+// json tag name of a struct field as encoding/json sees it
+func jsonFieldName(f *types.Var, tag string) (string, bool) {
+	if !f.Exported() {
+		return "", false
+	}
+	name := f.Name()
+	for _, part := range strings.Fields(tag) {
+		if strings.HasPrefix(part, "json:\"") {
+			v := strings.TrimSuffix(strings.TrimPrefix(part, "json:\""), "\"")
+			v = strings.Split(v, ",")[0]
+			if v == "-" {
+				return "", false
+			}
+			if v != "" {
+				name = v
+			}
+		}
+	}
+	return name, true
+}
+
+// field of st that receives JSON key (exact match first, then case-insensitive, as encoding/json)
+func jsonField(st *types.Struct, key string) int {
+	fold := -1
+	for i := 0; i < st.NumFields(); i++ {
+		n, ok := jsonFieldName(st.Field(i), st.Tag(i))
+		if !ok {
+			continue
+		}
+		if n == key {
+			return i
+		}
+		if fold < 0 && strings.EqualFold(n, key) {
+			fold = i
+		}
+	}
+	return fold
+}
+
+// Decode stub: fills the pointed-to struct from a structured document whose keys are those
+// of the SPDX data files; Go fields are selected by their json tags, read from the SSA types.
+func jsonDecodeStub(doc *jsonStub, target iface) value {
+	pt, ok := target.t.Underlying().(*types.Pointer)
+	if !ok {
+		return mkError("json: Unmarshal(non-pointer)")
+	}
+	st, ok := pt.Elem().Underlying().(*types.Struct)
+	if !ok {
+		panic(unsupported{"json decode into " + pt.Elem().String()})
+	}
+	cell := target.v.(*value)
+	top := (*cell).(structure)
+	if fi := jsonField(st, "licenseListVersion"); fi >= 0 {
+		if b, isB := st.Field(fi).Type().Underlying().(*types.Basic); isB && b.Info()&types.IsString != 0 {
+			top[fi] = "stub"
+		}
+	}
+	li := jsonField(st, doc.listKey)
+	if li < 0 {
+		return iface{} // key without a field: silently dropped, as encoding/json does
+	}
+	slT, ok := st.Field(li).Type().Underlying().(*types.Slice)
+	if !ok {
+		return mkError("json: cannot unmarshal array into Go struct field")
+	}
+	est, ok := slT.Elem().Underlying().(*types.Struct)
+	if !ok {
+		panic(unsupported{"json decode: list element type"})
+	}
+	elems := make([]value, len(doc.ids))
+	for k := range doc.ids {
+		e := zero(slT.Elem()).(structure)
+		set := func(key string, v value, want types.BasicInfo) {
+			fi := jsonField(est, key)
+			if fi < 0 {
+				return
+			}
+			b, isB := est.Field(fi).Type().Underlying().(*types.Basic)
+			if !isB || b.Info()&want == 0 {
+				panic(unsupported{"json decode: type mismatch for key " + key})
+			}
+			e[fi] = v
+		}
+		set("reference", "https://spdx.org/licenses/x.html", types.IsString)
+		set("detailsUrl", "https://spdx.org/licenses/x.json", types.IsString)
+		set("name", "a name", types.IsString)
+		set("referenceNumber", int64(k+1), types.IsInteger)
+		set(doc.idKey, doc.ids[k], types.IsString)
+		set("isDeprecatedLicenseId", doc.dep[k], types.IsBoolean)
+		if doc.listKey == "licenses" {
+			set("isOsiApproved", doc.osi[k], types.IsBoolean)
+		}
+		elems[k] = e
+	}
+	top[li] = sliceVal{elems, sizes.Sizeof(slT.Elem())}
+	return iface{}
+}
+
+var syncUses = map[string]bool{}
+var onceDone = map[*value]bool{}
+var syncMaps = map[*value]*mapVal{}
 
 func sortStrings(ss []string) {
 	for i := 1; i < len(ss); i++ {
@@ -376,6 +685,23 @@ func harnessPrim(name string, args []value) (value, bool) {
 		return nil, true
 	case "vStrEq":
 		return binop(token.EQL, args[0], args[1], nil), true
+	case "vStubJSON":
+		name := args[0].(string)
+		d := &jsonStub{listKey: "licenses", idKey: "licenseId"}
+		if strings.HasPrefix(name, "exceptions") {
+			d.listKey, d.idKey = "exceptions", "licenseExceptionId"
+		}
+		d.ids = append(d.ids, args[1].(sliceVal).s...)
+		d.dep = append(d.dep, args[2].(sliceVal).s...)
+		d.osi = append(d.osi, args[3].(sliceVal).s...)
+		jsonStubs[name] = d
+		return nil, true
+	case "vWrittenCount":
+		return int64(len(writtenFiles)), true
+	case "vWrittenPath":
+		return writtenFiles[args[0].(int64)].name, true
+	case "vWrittenData":
+		return writtenFiles[args[0].(int64)].data, true
 	case "vOutputs":
 		return int64(len(rs.outputs)), true
 	case "vGlobalWrites":
@@ -498,7 +824,7 @@ func sprintf(format value, args []value) value {
 // ---------- native fallbacks for concrete arguments ----------
 
 func nativeCall(fn *ssa.Function, args []value) (value, bool) {
-	name := fn.String()
+	name := fnName(fn)
 	strs := make([]string, len(args))
 	allStr := true
 	for i, a := range args {
